@@ -125,6 +125,8 @@ class ResponseModel:
                         for x in absint.walk_terms(a):
                             if x and x[0] == "const" and isinstance(x[1], bytes):
                                 name = x[1]
+                            elif x and x[0] == "const" and isinstance(x[1], str) and name is None:
+                                name = x[1].encode()       # (`"Date".as_bytes()`)
                     out["headers"].append((i, name, (e[8] or e[3])[1] if len(e[3]) > 1 else None))
                 elif n == self.head_writer.id:
                     out["head"] = i
